@@ -19,6 +19,10 @@ pub enum Entry {
     TextConfigDeadline,
     /// TextDiff::configure().algorithm(a).timeout(duration).diff_slices(..)
     TextConfigTimeout,
+    /// TextDiffConfig::deadline / ::timeout on inputs of more than 100 tokens (the
+    /// IdentifyDistinct branch of TextDiffConfig::diff): `n` + 100 and `m` + 100 pairwise
+    /// different tokens, clock already expired (`m` even: deadline, odd: timeout)
+    TextConfigBig,
 }
 impl Entry {
     fn name(&self) -> &'static str {
@@ -30,6 +34,7 @@ impl Entry {
             Entry::CaptureSlicesDeadline => "capture_diff_slices_deadline",
             Entry::TextConfigDeadline => "TextDiffConfig::deadline",
             Entry::TextConfigTimeout => "TextDiffConfig::timeout",
+            Entry::TextConfigBig => "TextDiffConfig::deadline/timeout (>100 tokens)",
         }
     }
     fn from(s: &str) -> Entry {
@@ -40,6 +45,7 @@ impl Entry {
             "capture_diff_deadline" => Entry::CaptureDeadline,
             "TextDiffConfig::deadline" => Entry::TextConfigDeadline,
             "TextDiffConfig::timeout" => Entry::TextConfigTimeout,
+            "TextDiffConfig::deadline/timeout (>100 tokens)" => Entry::TextConfigBig,
             _ => Entry::CaptureSlicesDeadline,
         }
     }
@@ -47,7 +53,7 @@ impl Entry {
         matches!(self, Entry::AlgDiffDeadline | Entry::ModuleDeadline | Entry::SlicesDeadline)
     }
     fn slices_only(&self) -> bool {
-        matches!(self, Entry::SlicesDeadline | Entry::CaptureSlicesDeadline | Entry::TextConfigDeadline | Entry::TextConfigTimeout)
+        matches!(self, Entry::SlicesDeadline | Entry::CaptureSlicesDeadline | Entry::TextConfigDeadline | Entry::TextConfigTimeout | Entry::TextConfigBig)
     }
 }
 
@@ -92,6 +98,7 @@ fn run_entry(s: &Shape, inp: &Inputs, dl: Option<std::time::Instant>) -> Obs {
             (Seq::Slice(o), Seq::Slice(n)) => Obs::Ops(capture_diff_slices_deadline(s.alg, &o[..], &n[..], dl)),
             _ => unreachable!(),
         },
+        Entry::TextConfigBig => unreachable!("handled by run_big"),
         Entry::TextConfigDeadline | Entry::TextConfigTimeout => match (&inp.old, &inp.new) {
             (Seq::Slice(o), Seq::Slice(n)) => {
                 use crate::symtxt::SymTxt;
@@ -113,6 +120,56 @@ fn run_entry(s: &Shape, inp: &Inputs, dl: Option<std::time::Instant>) -> Obs {
     }
 }
 
+impl C07 {
+    /// Above the 100-token threshold: all tokens pairwise different (one z3 distinct, class
+    /// hashing is lawful), clock expired from the first probe on.  The deadline set on the
+    /// builder must reach the algorithm (>= 1 probe) and the result must be a valid script
+    /// computed with O(N+M) comparisons.
+    fn run_big(&self, s: &Shape) -> String {
+        use crate::symtxt::SymTxt;
+        use crate::sym::Sym;
+        let (n, m) = (s.n + 100, s.m + 100);
+        let old = Sym::fresh_vec(n);
+        let new = Sym::fresh_vec(m);
+        let all: Vec<u32> = old.iter().chain(new.iter()).map(|x| x.0).collect();
+        engine::assume(&crate::engine::F::Distinct(all.clone()));
+        for id in &all {
+            engine::set_hash_class(*id, *id as u64);
+        }
+        let ot: Vec<&SymTxt> = (0..n).map(|i| SymTxt::new(&old[i..i + 1])).collect();
+        let nt: Vec<&SymTxt> = (0..m).map(|i| SymTxt::new(&new[i..i + 1])).collect();
+        let probes = std::rc::Rc::new(std::cell::Cell::new(0u32));
+        let p2 = probes.clone();
+        similar::verif_clock::install(Some(Box::new(move || {
+            p2.set(p2.get() + 1);
+            true
+        })));
+        let mut c = similar::TextDiff::configure();
+        c.algorithm(s.alg);
+        if s.m % 2 == 0 {
+            c.deadline(std::time::Instant::now());
+        } else {
+            c.timeout(std::time::Duration::from_secs(3600));
+        }
+        let c0 = engine::run_cmps();
+        let diff = c.diff_slices(&ot, &nt);
+        let cmps = engine::run_cmps() - c0;
+        similar::verif_clock::install(None);
+        let ops = diff.ops().to_vec();
+        validate_ops(&ops, &old, 0..n, &new, 0..m, OpsCheck::default());
+        engine::witness("paths_above_the_token_threshold");
+        claim!(
+            probes.get() >= 1,
+            "the deadline configured on the text-diff builder never reached a deadline check for {} / {} tokens (0 probes on inputs without common items)",
+            n, m
+        );
+        // the items are mapped to integers first, so Sym comparisons only happen in IdentifyDistinct
+        let bound = 8 * (n + m) as u64;
+        claim!(cmps <= bound, "{} element comparisons with an expired deadline on {} + {} tokens", cmps, n, m);
+        format!("{:?}", ops)
+    }
+}
+
 impl Prop for C07 {
     type Shape = Shape;
     fn id(&self) -> &'static str {
@@ -125,6 +182,9 @@ impl Prop for C07 {
             Tier::Thorough => 5,
         };
         for alg in ALGS {
+            for (n, m) in [(1usize, 2usize), (1, 3), (3, 0), (0, 1)] {
+                v.push(Shape { alg, n, m, layout: Layout::Slice { pre_o: 0, post_o: 0, pre_n: 0, post_n: 0 }, entry: Entry::TextConfigBig });
+            }
             for n in 0..=max {
                 for m in 0..=max {
                     for layout in [
@@ -150,6 +210,9 @@ impl Prop for C07 {
 
     fn run(&self, s: &Shape) -> String {
         reset_hooks();
+        if s.entry == Entry::TextConfigBig {
+            return self.run_big(s);
+        }
         let inp = make_inputs(s.n, s.m, s.layout);
         let clock = install_clock();
         let obs = run_entry(s, &inp, any_instant());
@@ -245,7 +308,7 @@ impl Prop for C07 {
                 "similar::{capture_diff_deadline, capture_diff_slices_deadline} (+ Compact, Replace, Capture)",
                 "similar::TextDiffConfig::{deadline, timeout, diff_slices, diff}, Deadline::into_instant, deadline_support::duration_to_deadline",
             ],
-            bounds: format!("3 algorithms x n,m in 0..={} x 3 layouts x 7 entry points (incl. TextDiffConfig::deadline and ::timeout over one-character SymTxt tokens); the clock is symbolic: one z3 Bool per deadline probe with a latch, so 'expired before the start', 'at probe k' for every reachable k, and 'never' are all explored; work bound after expiry: raw {}*(N+M)+{}, captured {}*(N+M)+{} comparisons (constants.json)", match tier { Tier::Quick => 4, Tier::Thorough => 5 }, konst("c07_raw_after_expiry_per_item"), konst("c07_raw_after_expiry_const"), konst("c07_captured_after_expiry_per_item"), konst("c07_captured_after_expiry_const")),
+            bounds: format!("3 algorithms x n,m in 0..={} x 3 layouts x 7 entry points (incl. TextDiffConfig::deadline and ::timeout over one-character SymTxt tokens), plus TextDiffConfig::deadline / ::timeout above the 100-token threshold (100..103 pairwise different tokens per side, clock already expired); the clock is symbolic: one z3 Bool per deadline probe with a latch, so 'expired before the start', 'at probe k' for every reachable k, and 'never' are all explored; work bound after expiry: raw {}*(N+M)+{}, captured {}*(N+M)+{} comparisons (constants.json)", match tier { Tier::Quick => 4, Tier::Thorough => 5 }, konst("c07_raw_after_expiry_per_item"), konst("c07_raw_after_expiry_const"), konst("c07_captured_after_expiry_per_item"), konst("c07_captured_after_expiry_const")),
             outside: "wall-clock behaviour of Instant::now itself; lengths beyond the bound (so the 'small constant multiple' is only bounded on small inputs)".into(),
             assumptions: vec![
                 "H1 (cfg similar_verif): deadline_exceeded consults the installed oracle instead of Instant::now() when a deadline is present".into(),
@@ -256,6 +319,7 @@ impl Prop for C07 {
                 "paths_expired_at_a_later_probe",
                 "paths_where_the_deadline_never_fired",
                 "paths_with_disjoint_inputs",
+                "paths_above_the_token_threshold",
             ],
             rule: "one state = one explored path = one equality pattern x one expiry point; one transition = one solver-decided comparison or clock probe".into(),
         }
